@@ -59,7 +59,13 @@ def run(ctx, only_get=False):
             datasets = SeqVal(p.fresh('to_move', it.types.sort_of('Seq[harness.AppDataset]')), 'harness.AppDataset')
             nop = p.fresh_int('nop')
             p.assume(nop >= 1)
-        h.app['on_receive_move'] = lambda it2, h2, a: (Opaque('remote_ae'), nop, datasets)
+        remote = Opaque('remote_ae')
+        asked = []
+
+        def on_move(it2, h2, a):
+            asked.append(list(a))
+            return (remote, nop, datasets)
+        h.app['on_receive_move'] = on_move
         install_subassociation(it, h, sym_status)
         try:
             it.call(sc.attrs['qr_move_scp'], [asce, c, req], {})
@@ -68,6 +74,19 @@ def run(ctx, only_get=False):
                      assume_after=False)
             p.outcome = 'normal'
             return
+        # the destination: the application is asked once, with the request's move destination, and the one
+        # sub-association goes to the entity it designated
+        okq = len(asked) == 1 and len(asked[0]) == 3
+        p.oblige('%s#application-asked-once-with-the-move-destination' % label,
+                 ops.values_equal(it, asked[0][2], it.getattr(req, 'move_destination')) if okq else z3.BoolVal(False),
+                 kind='ensures', assume_after=False)
+        reqs = [e for e in p.trace if e[0] == 'sub-association.request']
+        if not nop_zero:
+            p.oblige('%s#one-association-to-the-designated-destination' % label,
+                     z3.BoolVal(len(reqs) == 1 and reqs[0][1] is remote), kind='ensures', assume_after=False)
+        else:
+            p.oblige('%s#no-other-destination' % label, z3.BoolVal(all(e[1] is remote for e in reqs)), kind='ensures',
+                     assume_after=False)
         # loop-exit path: everything sent outside loop iterations is on this trace
         sent = sends(p, 'asce')
         finals = [e for e in sent if is_final(it, e)]
